@@ -105,7 +105,9 @@ def width(e, c):
     k = e[0]
     if k == "f":
         return c.types[e[1]]["w"]
-    if k in ("lit", "elit"):
+    if k == "lit":
+        return 32 if -(1 << 31) <= e[1] < (1 << 31) else 64     # (a Python int beyond 32 bits is a 64-bit literal)
+    if k == "elit":
         return 32
     if k in ("ulit", "slit"):
         return e[2]
@@ -142,7 +144,9 @@ def signed(e, c):
     k = e[0]
     if k == "f":
         return c.types[e[1]]["signed"]
-    if k in ("lit", "slit", "elit"):
+    if k == "lit":
+        return e[1] < (1 << 63)      # (only a value beyond the signed 64-bit range is an unsigned literal)
+    if k in ("slit", "elit"):
         return True
     if k == "ulit":
         return False
@@ -179,7 +183,7 @@ def ev(e, c, ctx=-1):
         t = c.types[e[1]]
         return (c.env[e[1]] & mask(t["w"]), t["w"])
     if k in ("lit", "elit"):
-        w = max(32, ctx)
+        w = max(width(e, c), ctx)
         return (e[1] & mask(w), w)
     if k in ("ulit", "slit"):
         w = max(e[2], ctx)
